@@ -198,6 +198,42 @@ func (f *frame) lookupVarAt(name string, at *ssa.BasicBlock, before ssa.Instruct
 		}
 	}
 	if best == nil {
+		// fallback: a variable whose references all come later (e.g. the implicit
+		// variable of a type-switch clause, first used inside the loop whose
+		// invariant mentions it): take the value some reference anywhere in the
+		// function denotes, provided that value is DEFINED in a block dominating
+		// this point (nearest such definition wins) and is not an address
+		for _, b := range f.fn.Blocks {
+			for _, ins := range b.Instrs {
+				d, ok := ins.(*ssa.DebugRef)
+				if !ok || d.IsAddr {
+					continue
+				}
+				obj := d.Object()
+				if obj == nil || obj.Name() != name {
+					continue
+				}
+				if _, isVar := obj.(*types.Var); !isVar {
+					continue
+				}
+				def, isIns := d.X.(ssa.Instruction)
+				if !isIns {
+					continue
+				}
+				db := def.Block()
+				if db == nil || !(db == at || db.Dominates(at)) {
+					continue
+				}
+				if _, done := f.vals[d.X]; !done {
+					continue
+				}
+				if bestBlock == nil || bestBlock.Dominates(db) {
+					best, bestBlock, bestAddr = d.X, db, false
+				}
+			}
+		}
+	}
+	if best == nil {
 		return Val{}, false
 	}
 	v, ok := f.vals[best]
